@@ -23,6 +23,9 @@ for f in sorted(glob.glob(os.path.join(R, "seeded", "C*", "meta.json"))):
     first = re.sub(r"[`|]", "", first)[:150]
     b = pass1.get(name, ("-", ""))
     before = {"CAUGHT": "caught by " + b[1], "MISSED": "missed by all 20", "REJECT": "-", "INVALID": "-", "-": "-"}[b[0]]
+    mr = re.search(r"-r(\d)m", name)
+    if before == "missed by all 20" and mr and int(mr.group(1)) >= 6:
+        before = "missed by its own check (the only one run)"
     rows.append(f"| {name} | {m['breaks_property']} | {first} | {before} | {' '.join(m['caught_by']) or '**missed**'} |")
 out = ["## 8. Which checks catch which changes (as built)", "",
 "### 8.1 Changes written by independent sub-agents",
@@ -56,8 +59,8 @@ for k, v in pass1.items():
     if v[0] == "CAUGHT":
         c[0] += 1
 p1txt = "; ".join(f"round {r}: {c[0]} of {c[1]}" for r, c in sorted(per.items()))
-out += [f"First pass (any of the 20 checks, as they were when that round's agents started; in round 6 only the check of the agent's property was run): {p1txt}. Now: {n_now} of {len(rows)} caught, {n_own} of them by the check of the property the agent was given.",
-"The one change still missed, C05-r2m1, alters how NaN compares (NaN from `inf - inf`, or the string 'NaN'): non-finite values are [P] throughout (section 3.1) because no property statement fixes them, so no check claims it.",
+out += [f"First pass (any of the 20 checks, as they were when that round's agents started; in rounds 6-8 only the check of the agent's property was run): {p1txt}. Now: {n_now} of {len(rows)} caught, {n_own} of them by the check of the property the agent was given.",
+"Still missed, and not claimed: C05-r2m1 alters how NaN compares (NaN from `inf - inf`, or the string 'NaN') and C05-r8m2 reports a quotient that overflows (`1e308 / 1e-10`) as a division by zero - non-finite values are [P] throughout (section 3.1) because no property statement fixes them; C02-r8m1 lets a `-r` selector keep its own variables from one value to the next, the territory of the open finding K-SELSCOPE (no statement fixes the selector's private state; `-r E` = `BEGINFILE { $ = E }` would even demand it); C06-r8m2 lowers the parser's nesting limit to 4 096, inside the band in which C20 accepts either outcome for program nesting - the fully parenthesised form of a 6 000-term sum is then refused, as the one of a 250 000-term sum is on the unchanged tree.",
 "Five further changes are kept under `seeded/obsolete/` with a note each: C09-r6m2 weakened a helper (`existingSpeculative`) that repair 60de3d8 then removed altogether; C04-r3m1 manifested only through the array-length defect K-ALIAS and is harmless since that was repaired; C01-m2 (a Go panic of integer `%`) and C14-r2m2 (a per-value slice of roots that was never reset) perverted code that the sixth round's repairs replaced (626a211, 3a6b155); C07-r6m2 changes what `next` does in BEGIN / END / BEGINFILE / ENDFILE rules, which no statement fixes (pinned, reported as a NOTE).",
 "The sixth round's repairs of /repo touched lines under 39 stored changes (and the three repairs that followed the review under 3 more, ported by hand); 3 re-applied by three-way merge, 36 were re-written for the new tree by six sub-agents (given the old patch, its note and demonstration and a scratch clone; `patch.before-c9e43cc.diff` keeps the original) and re-confirmed by `tools/ingest_ported.sh`; one demonstration (C10-m2) used `false++`, which is a syntax error since 12c2390, and now stores through a match binding instead.",
 "For round 2 the first pass was run afterwards against the commit that preceded the round (a3da53e), because I had started strengthening from the agents' reports before running anything; for rounds 1 and 3 it was run before any change.", ""]
@@ -77,6 +80,10 @@ out += ["What the misses of the first round had in common, and what was added (s
 "Fifth round: again triggers chosen to be rare - a condition re-evaluated only when its operands are of different kinds, a literal of 8+ items, a subscript of 14+ tokens, 18 distinct regex texts, documents nested deeper than 4096, digit strings of 17+ digits, doubles 4 ulp apart, a byte at offset 0, the binary's own stack ceiling, file operands naming one file twice, `-o` onto the input file. Writing a hand-computed program for one of them (own keys named like methods) exposed defect F26 (section 5) on the unchanged tree.",
 "",
 "Sixth round (written against the repaired tree c9e43cc, with the hint that partly undoing or mis-generalising one of the recent repairs is welcome; 14 of 40 missed at first): *resources of the process rather than of the language* - more file operands than descriptors once files are closed only at exit (C02, C14), standard output that is a regular file and therefore \"safe\" to buffer (C03); *the one double that is not an int64* - 2^63 passes a `<= MaxInt64` guard written in floating point (C04; C05 caught the same slip in `%`); *formats that end inside a directive* after a flag (C01); *stores where a method name is not a member* on arrays, strings and numbers (C11); *results that alias what they were made from* - `sort()` sharing cells with its receiver, `split()` handing out its previous result, one cell per byte for string indexing shared by all runs of the process (C09, C16, C10); *a genuine U+FFFD* among bytes that are no UTF-8 (C16); *long case lists* (a dispatch table keyed by the literal's text defeats equality by coercion) and *names bound by an alternative that then fails* (C19); *the receiver's location stored into by an argument of the same call* (C15). One change (C07-r6m2) turned out to be about behaviour no statement fixes, see above.",
+"",
+"Seventh round (written against the final tree 0197c53, same brief as before but without the list of earlier changes; 5 of 40 missed at first by the check of their property): a conversion of digit strings through int64 that wraps for 19-digit numerals (C05); a parser that re-balances runs of 16 and more `+` / `*` (C06); `next` forgotten in the explicit decrement that replaced a `defer` (C08; caught at once by C07's long runs, but C08's histories stopped at 10 000 elements); `%` by a divisor that truncates to zero slipping through a merged `== 0` test (C11; C05 catches the value, C11 had no such fault kind); `pluck` storing the receiver's own cells (C16).",
+"",
+"Eighth round (started after the seventh round's additions, with the one-line summaries of all 275 earlier changes and the request for other mechanisms; 24 of 40 missed at first by the check of their property - the owning check alone was run, several of these are caught by a neighbouring check, see the table): *features and fast paths nobody asked for* - regex literals as case patterns compiled with `MustCompile` (C01), a one-line writer for scalar arrays that drops the marshalling error (C04), a printer depth guard (C17, C20), a format-only printf fast path, a subscript fast path for `a[-x]` that swallows the rest of the subscript (C06), implicit line joining inside brackets (C13), a NUL byte taken for the end of the text (C11); *state kept too long* - a constant array literal built once (C15), the frame table of a match case kept on the case node and overwritten by recursion (C19), an auto-fill budget per process (C10), no frame at all for a case that binds nothing (C08); *sizes* - 65 536 pieces (C16), width texts of seven characters (C18), reused token slots that only show for an even token count (C12). Two changes are not counted as breaks: C02-r8m1 lets a selector keep its own variables from one value to the next, which is what `-r E` = `BEGINFILE { $ = E }` (C14) would give and what the open finding K-SELSCOPE is about - no statement fixes the selector's private state; C05-r8m2 reports `1e308 / 1e-10` as a division by zero, which concerns non-finite results, pinned like C05-r2m1.",
 "",
 "### 8.2 The reverse of every repair",
 "",
